@@ -42,6 +42,8 @@ class FakeSock:
         self.eof = False
         self.fail_send = False
         self.recv_log: list[bytes] = []
+        self.req_log: list[int] = []   # the byte counts recv was asked for (parallel to recv_log)
+        self.fail_sockopt = False
         self.eof_if_starved = False    # blocking phase: the peer sends nothing more and goes away
         self.split_rng = None          # PRNG used to shorten reads (blocking handshake phase)
         self.calls = 0
@@ -58,7 +60,9 @@ class FakeSock:
         return self.peer
 
     def setsockopt(self, *a):
-        pass
+        if self.fail_sockopt:
+            self.fail_sockopt = False
+            raise OSError(22, "Invalid argument")
 
     def setblocking(self, b):
         pass
@@ -79,9 +83,11 @@ class FakeSock:
             data = bytes(self.inbuf[:k])
             del self.inbuf[:k]
             self.recv_log.append(data)
+            self.req_log.append(n)
             return data
         if self.eof or self.eof_if_starved:
             self.recv_log.append(b"")
+            self.req_log.append(n)
             self.owner.events.append(("Z",))
             return b""
         raise WouldBlock()
@@ -96,6 +102,58 @@ class FakeSock:
 
     def close(self):
         self.closed = True
+
+
+class FakeListenSock:
+    """the TCP server socket handed to `_SocketManager.add_tcp_server` / `_TcpServer`"""
+
+    def __init__(self, fd):
+        self.fd = fd
+        self.queue = collections.deque()
+        self.fail_accept = False
+        self.closed = False
+
+    def fileno(self):
+        return self.fd
+
+    def setblocking(self, b):
+        pass
+
+    def getsockname(self):
+        return ("0.0.0.0", 5000)
+
+    def accept(self):
+        if self.fail_accept:
+            self.fail_accept = False
+            raise ConnectionAbortedError(103, "Software caused connection abort")
+        if not self.queue:
+            raise BlockingIOError()
+        s = self.queue.popleft()
+        return s, s.peer
+
+    def close(self):
+        self.closed = True
+
+
+def predict_err_sizes(M, rname: str, m) -> dict:
+    """pickled size of the error reply `send_error_reply` makes when request `m` (as sent by the peer) cannot be
+    delivered: {'ud': unknown destination, 'rf': refused by the handler}.  The text of the router's own exception
+    is taken from a scratch router without handlers (no side effects)."""
+    out = {}
+    try:
+        M.MessageRouter(rname, "wg").deliver_message(m)
+        return out
+    except M.QMI_MessageDeliveryException as e:
+        texts = {"ud": str(e), "rf": "refused-by-handler"}
+    except Exception:
+        return out
+    for k, text in texts.items():
+        reply = M.QMI_ErrorReplyMessage(source_address=m.destination_address,
+                                        destination_address=M.QMI_MessageHandlerAddress(
+                                            m.source_address.context_id, m.source_address.object_id),
+                                        request_id=m.request_id, error_msg=text)
+        out[k] = len(pickle.dumps(reply))
+    return out
 
 
 class FakeLoop:
@@ -209,7 +267,11 @@ class SimCtx:
         self.conns: dict = {}
         self.defined: set = set()
         self.next_fd = 100
-        self._op("init %s %d" % (self.I.name(name), maxsize), "ok")
+        import qmi
+        self._op("init %s %d %d" % (self.I.name(name), maxsize, self.I.get("ver", qmi.__version__)), "ok")
+        # the real TCP server object on a fake listening socket
+        self.lsock = FakeListenSock(99)
+        self.sm.add_tcp_server(self.lsock)
 
     # -- plumbing -----------------------------------------------------------------------------------------
     def _op(self, line: str, out: str):
@@ -293,6 +355,8 @@ class SimCtx:
                 return "badsrc"
         if t == "QMI_UsageException" and "Duplicate connection" in s:
             return "duplicate"
+        if t == "QMI_UsageException" and "Invalid peer context name" in s:
+            return "invalidname"
         if t == "ValueError" and s == "Expected QMI_Message":
             return "notmsg"
         if t == "AssertionError":
@@ -324,6 +388,8 @@ class SimCtx:
                     out.append("Z")
             elif e[0] == "R":
                 out.append("R:" + self.I.name(e[1]))
+            elif e[0] == "V":
+                out.append("V")
             elif e[0] == "!":
                 out.append("!")
         return " ".join(out) if out else "-"
@@ -401,6 +467,9 @@ class SimCtx:
                 self.I.name(m.source_address.context_id), self.I.get("obj", m.source_address.object_id),
                 self.I.name(m.destination_address.context_id), self.I.get("obj", m.destination_address.object_id),
                 self.I.get("tag", content_key(m))), "ok")
+            if k == "q" and m.destination_address.context_id == self.name:
+                for b, n in predict_err_sizes(self.M, self.name, m).items():
+                    self._op("esz %s %s %d" % (hx(payload), b, n), "ok")
 
     # -- operations ---------------------------------------------------------------------------------------
     def hadd(self, obj: str, hkind: str):
@@ -456,17 +525,32 @@ class SimCtx:
             self.events.append(("!", e))
             self.escaped.append((where, e))
 
-    def accept(self, cid, send_ok=True):
+    def peers_line(self):
+        ids = {id(c): k for k, c in self.conns.items()}
+        cur = " ".join("%s=%d" % (self.I.name(a), ids.get(id(c), -1)) for a, c in self.sm._peer_context_map.items())
+        self._op("peers", cur or "-")
+
+    def accept(self, cid, send_ok=True, accept_fails=False, nodelay_fails=False):
+        """a client connects: the event loop calls the real `_TcpServer._handle_read` of the listening socket"""
         sock = self.new_sock()
         sock.fail_send = not send_ok
-        self.socks[cid] = sock
+        sock.fail_sockopt = nodelay_fails
+        self.lsock.fail_accept = accept_fails
+        if not accept_fails:
+            self.lsock.queue.append(sock)
+            self.socks[cid] = sock
         made, orig = self._spy()
         mark = len(self.events)
         try:
-            self._call("add_incoming_connection", lambda: self.sm.add_incoming_connection(sock))
+            cb, args = self.loop.readers[self.lsock.fd]
+            self._call("tcp_server_reader", lambda: cb(*args))
         finally:
             self.M._PeerTcpConnection = orig
         sock.fail_send = False
+        if accept_fails:
+            # accept() raised: logged; nothing is created, registered or counted
+            self.peers_line()
+            return None
         if made:
             self.conns[cid] = made[0]
         self._op("accept %d %d" % (cid, int(send_ok)),
@@ -506,10 +590,11 @@ class SimCtx:
         sock.eof_if_starved = False
         if made:
             self.conns[cid] = made[0]
-        chunks = " ".join(hx(c) for c in sock.recv_log)
+        chunks = " ".join("%d:%s" % (n, hx(c)) for n, c in zip(sock.req_log, sock.recv_log))
         sock.recv_log.clear()
+        sock.req_log.clear()
         self._op(("connect %d %s %s" % (cid, self.I.name(peer_name), chunks)).rstrip(),
-                 "%s | %s | %s" % (self.canon(self.events[mark:], "hs"), res, self.state(cid)))
+                 "%s | %s | %s | reqs=ok" % (self.canon(self.events[mark:], "hs"), res, self.state(cid)))
         return sock, exc
 
     def pump(self, cid):
@@ -535,6 +620,7 @@ class SimCtx:
                 if not new:
                     break
         sock.recv_log.clear()
+        sock.req_log.clear()
 
     def send(self, cid_alias: str, message, payload_expected: bytes, send_ok=True, sock=None):
         if sock is not None:
@@ -578,9 +664,12 @@ class LogTap(logging.Handler):
         ctx = self.ctx
         if ctx is None:
             return
-        if record.exc_info and record.funcName == "_handle_read":
+        if record.exc_info and record.funcName == "_handle_read" and record.levelno == logging.INFO:
+            # (`_PeerTcpConnection._handle_read` logs at INFO; `_TcpServer._handle_read` logs its errors at ERROR)
             exc = record.exc_info[1]
             ctx.events.append(("X", ctx.why_of(exc, record.exc_info[2])))
+        elif record.funcName == "connect_to_peer" and record.levelno == logging.WARNING:
+            ctx.events.append(("V",))
 
 
 def mkframe(payload: bytes, length=None) -> bytes:
